@@ -65,6 +65,16 @@ def make_cases(rng, tier):
     for name in ["17", " 42 ", "-5", "+8", "x9", "9223372036854775807", "9223372036854775808", "1_0", "rule a", "0"]:
         for k in ["atname", "atid", "atdesc", "atsal"]:
             cases.append(ret_case(cid, emath(matom(const((k,)))), [], name=name, desc="some desc", sal=rng.choice([-4, 0, 12]))); cid += 1
+    # names and descriptions are arbitrary string tokens: a doubled quote or a backslash-quote inside is part of the name (the
+    # listener interprets no escape, it trims the outer quotes), and @name / @desc are that name and that description
+    for name, desc in [('a""b', "plain"), ("plain", 'd""e'), ('q\\"r', 'say \\"hi\\" twice'), ("back\\slash", 'x""')]:
+        for k in ["atname", "atdesc", "atid"]:
+            cases.append(ret_case(cid, emath(matom(const((k,)))), [], name=name, desc=desc.rstrip('"') or "d", sal=2)); cid += 1
+    # string constants keep the characters written between their outer quotes
+    for lit in ['x\\"y', 'p""q', "a\\nb", "tab\\there", '""'.join("abc")]:
+        cases.append(ret_case(cid, emath(matom(const(kstr(lit)))), [])); cid += 1
+        cases.append(ret_case(cid, emath(mk_mbin("+", matom(const(kstr(lit))), matom(const(kstr("!"))))), [])); cid += 1
+        cases.append(ret_case(cid, mk_ecmp("==", emath(matom(const(kstr(lit)))), emath(mvar("s"))), [inj_val("s", tv_str(lit))])); cid += 1
     cases.append(ret_case(cid, emath(mk_mbin("+", matom(const(("atid",))), matom(const(("atsal",))))), [], name="30", desc=None, sal=None)); cid += 1
     # (e) random trees
     n_rand, depth = (350, 4) if tier == "quick" else (12000, 7)
@@ -92,7 +102,7 @@ def nontrivial(c, o):
 
 RULE = ("systematic: all 144 ordered pairs and 150 (thorough: all 1728) triples of the 12 binary operators printed WITHOUT parentheses (the tree the grammar reads is built by flat_to_tree and compared with the listener's tree); "
         "all 14x14 operand kind pairs (10 integer kinds, 2 float kinds, string, bool) x 7 (thorough 10) operators with boundary operands; 12 special operand pairs (2^53+1 vs 2^53, 2^64-1 vs -1, minint / -1, division by 0 and -0.0 ...) x 10 operators; "
-        "@name/@id/@desc/@sal over 10 rule names; random trees of depth <= 4 (thorough 7) with ~8% ill-typed leaves, calls, explicit parentheses and !; "
+        "@name/@id/@desc/@sal over 14 rule names and descriptions (incl. doubled quotes, backslash-quotes and backslashes inside them), string constants with such characters; random trees of depth <= 4 (thorough 7) with ~8% ill-typed leaves, calls, explicit parentheses and !; "
         "distinct non-trivial = distinct (tree shape with operators, operand kind vector) with at least two binary operators")
 
 
